@@ -1,6 +1,11 @@
 import FindVerif.Tie
 import FindVerif.TieTables
+import FindVerif.Theorems.C01
 import FindVerif.Theorems.C03
+import FindVerif.Theorems.C04Whole
+import FindVerif.Theorems.C05
+import FindVerif.Theorems.C16
+import FindVerif.Theorems.C18
 import FindVerif.Theorems.C04
 import FindVerif.Theorems.C06Layout
 import FindVerif.Theorems.C07
@@ -108,5 +113,58 @@ theorem C20_one_place (c : Compiled) (mdt : Text) :
 theorem C20_device_decodes (c : Compiled) (mdt : Text) :
     ∃ fuel, read1 fuel ('"' :: Gen.schemeEscape mdt ++ '"' :: c.suffix_) = some (.str mdt, c.suffix_) := by
   rw [TieTables.schemeEscape]; exact FV.C20_device_decodes c mdt
+
+/-- C02 (translation validity, end to end on the emitted text): the program that the translated `compile`
+    and `scheme` emit, read back by the independent reader and run on any file, does what find's rules
+    say for the tree. -/
+theorem C02_end_to_end (rt : Rt) (file : File) (clk : Nat → Nat) (now : Nat) (e : Expr) (o : RunOptions) (c : Compiled) (mdt : Text)
+    (hclk : ∀ i, clk i = now) (hc : Gen.compile clk e o = .ok c)
+    (htags : ∀ kv ∈ c.ioMap.getD [], kv.1 < 0xD800)
+    (hdef : evalFind rt now (policyTree e) file ≠ .undefined) :
+    ∃ forms p, readAll (Gen.scheme c mdt) = some forms ∧ programOf forms = some p ∧
+      runPolicy rt file c.ioMap p.bindings p.body = .outcome (evalFind rt now (policyTree e) file) := by
+  rw [TieTables.compile] at hc; rw [TieTables.scheme]
+  exact FV.C02_end_to_end rt file clk now e o c mdt hclk hc htags hdef
+
+/-- C09 (no implicit print when an action occurs anywhere) over the translated `compile` and code generator. -/
+theorem C09_nowrap (clk : Nat → Nat) (e : Expr) (o : RunOptions) (c : Compiled)
+    (h : Gen.compile clk e o = .ok c) (ha : ContainsAction e) :
+    ∃ st, Gen.compileExpr clk e { mgr := initialManager e } = .ok (c.policyBody, st) ∧
+      c.definitions = st.mgr.definitions ∧ c.ioMap = st.mgr.printerMap := by
+  rw [TieTables.compile] at h; rw [TieTables.compileExpr]
+  exact FV.C09_nowrap clk e o c h ha
+
+/-- C16 (framed mode: only frame printers write) over the translated code generator. -/
+theorem C16_framed_only_frame_writes (clk : Nat → Nat) (e : Expr) (body : Text) (st : CState)
+    (h : Gen.compileExpr clk e { mgr := Manager.distInit } = .ok (body, st)) :
+    st.mgr.distributed = true ∧ ∀ b ∈ st.mgr.vars, b.framedOk := by
+  rw [TieTables.compileExpr] at h
+  exact FV.C16_framed_only_frame_writes clk e body st h
+
+/-- C05 (a unary test keyword followed by a blank run and its argument) over the translated `token`. -/
+theorem C05_test_unary {α : Type} (pf : Profile) (kw : Text) (tr : α → Test) (argp : P Char α)
+    (hm : (kw, unary kw tr argp) ∈ testAlts pf) (ws x : Text) (h : BlankRun ws x) :
+    Gen.token pf (kw ++ (ws ++ x)) =
+      match argp x with
+      | .ok v r => .ok (.test (tr v)) r
+      | .err _ c r => .err true (c ++ [label kw, label (cl!"test"), label (cl!"syntax")]) r
+      | .panic s => Gen.token pf (kw ++ (ws ++ x)) := by
+  rw [Tie.token]; exact FV.C05_test_unary pf kw tr argp hm ws x h
+
+/-- C18 (an unknown word is quoted whole) over the translated entry point. -/
+theorem C18_unknown (pf : Profile) (s : Text) (gs : List GlobalOption) (rest : Text) (pre : List Token) (r : Text)
+    (h1 : Gen.leadingGlobals pf s = .ok gs rest) (hne : rest ≠ [])
+    (hpre : LexPrefix pf (rest.dropWhile isBlank) pre r) (hr : r ≠ [] ∨ pre = [])
+    (htok : Gen.token pf r = .err false [expected (cl!"invalid_token"), label (cl!"syntax")] r) :
+    Gen.parse pf s = .error (.invalidToken (nextWord r)) := by
+  rw [Tie.leadingGlobals] at h1; rw [Tie.token] at htok; rw [Tie.parse]
+  exact FV.C18_unknown pf s gs rest pre r h1 hne hpre hr htok
+
+/-- C01 (the operator grammar, all token lists): the translated `parser` — over the `atom` parser obtained by
+    closing the translated, open-recursive `atom` body with nesting fuel (`Tie.atom_step`) — accepts exactly
+    the sentences of the find grammar and returns the grammar's tree, with every token consumed. -/
+theorem C01_iff (pf : Profile) (ts : List Token) (e : Expr) :
+    Gen.parserTop pf (FV.atom pf (ts.length + 1)) ts = .ok e [] ↔ GList ts e := by
+  rw [← Tie.parserTop]; exact FV.C01_iff pf ts e
 
 end FV.OnSource
